@@ -46,6 +46,8 @@ def strategy(tier):
     # a share of the directly built trees gets a binary root whose two sides share ids, so that the quality-driven
     # skip of one side regularly lands on an id the other side has to veto / confirm
     def rooted(case, kind, leaf, extra):
+        if case["kind"] == "query" and kind == "union":
+            kind = "dismax"
         if case["kind"] == "query":
             # the same for trees over real posting blocks: a binary root whose second side is a frequent term
             word = WORDS_BY_FREQUENCY[len(extra) % len(WORDS_BY_FREQUENCY)]
@@ -53,6 +55,8 @@ def strategy(tier):
             if case["query"]["op"] in ("not", "span", "spannear", "spanor", "spannot", "spanfirst", "spancontains", "spanbefore",
                                        "spancondition"):
                 return case
+            if kind == "dismax":
+                return dict(case, query={"op": "dismax", "qs": [case["query"], other], "tiebreak": 0.0})
             return dict(case, query={"op": kind if kind != "inter" else "and", "a": case["query"], "b": other,
                                      "qs": [case["query"], other], "boost": 1.0})
         if case["kind"] != "direct":
@@ -60,13 +64,16 @@ def strategy(tier):
         ids = sorted(set(extra) | set(leaf["ids"]))
         return dict(case, tree={"m": kind, "a": case["tree"], "b": dict(leaf, ids=ids)})
     base = st.one_of(base, base,
-                     st.builds(rooted, base, st.sampled_from(["andnot", "inter", "require", "andmaybe"]), c11.list_leaf_s(),
+                     st.builds(rooted, base, st.sampled_from(["andnot", "inter", "require", "andmaybe", "dismax", "union"]), c11.list_leaf_s(),
                                st.lists(st.integers(0, 30), max_size=8)))
     weighting = st.one_of(
         st.builds(lambda B, K1, tB: {"kind": "bm25f", "B": B, "K1": K1, "t_B": tB},
                   st.sampled_from([0.75, 0.0, 1.0, 0.3]), st.sampled_from([1.2, 0.5, 2.0]),
                   st.sampled_from([None, 0.0, 1.0])),
-        st.just({"kind": "tfidf"}), st.just({"kind": "frequency"}), st.just({"kind": "multi"}))
+        st.just({"kind": "tfidf"}), st.just({"kind": "frequency"}), st.just({"kind": "multi"}),
+        # these do not claim quality support (any more): the cases are then counted as out of scope, and a change
+        # that makes them claim it again brings them back under the oracle
+        st.sampled_from([{"kind": "pl2", "c": 1.0}, {"kind": "dfree"}, {"kind": "reverse"}]))
     return st.builds(lambda case, moves, thr, w: dict(case, program=moves, thresholds=thr,
                                                       weighting=(w if case["kind"] == "query" else None),
                                                       context=("scored" if case["kind"] == "query" else None)),
@@ -234,6 +241,16 @@ def run_one(make, case, out, tag):
                         return
                     continue
                 newpos = ids.index(cid, pos)
+                # what the collector would take now is (id, score): if the score beats q it must be that entry's score
+                try:
+                    reported = c.score()
+                except Exception:
+                    reported = None
+                if reported is not None and gt(reported, q) and not c11.close(reported, scores[newpos], 1e-9):
+                    out.fail("c12.skip_to_quality_reports_another_entrys_score",
+                             {"tag": tag, "q": q, "id": cid, "reported_score": reported, "score_of_that_id": scores[newpos],
+                              "matcher": repr(m)[:300]})
+                    return
             else:
                 newpos = len(ids)
             lost = [(ids[j], scores[j]) for j in range(pos, newpos) if gt(scores[j], q)]
